@@ -6,22 +6,48 @@ use vcheck::runner::{install_panic_hook, Ctx, Tier};
 /// `realloc` always moves: a borrow that outlives its allocation - a chunk, name or content read after the call that
 /// handed it out has returned (observe::stream does exactly that), a reference into a vector that grew - then reads
 /// bytes that cannot be mistaken for the data it once pointed to, instead of stale bytes that still look right.
+/// Every block is followed by 16 guard bytes that are looked at when it is freed: a write past the end of an
+/// allocation (a raw-pointer write into under-reserved capacity, a `set_len` beyond it) is reported for the case being
+/// evaluated on that thread (`vcheck::heapcheck`), where the system allocator's slack would have swallowed it.
 struct Poison;
+
+const GUARD: usize = 16;
+const GUARD_BYTE: u8 = 0xCA;
+
+impl Poison {
+  fn padded(l: Layout) -> Option<Layout> {
+    Layout::from_size_align(l.size().checked_add(GUARD)?, l.align()).ok()
+  }
+}
 
 unsafe impl GlobalAlloc for Poison {
   unsafe fn alloc(&self, l: Layout) -> *mut u8 {
-    System.alloc(l)
+    let Some(pl) = Self::padded(l) else { return std::ptr::null_mut() };
+    let p = System.alloc(pl);
+    if !p.is_null() {
+      std::ptr::write_bytes(p.add(l.size()), GUARD_BYTE, GUARD);
+    }
+    p
   }
   unsafe fn alloc_zeroed(&self, l: Layout) -> *mut u8 {
-    System.alloc_zeroed(l)
+    let Some(pl) = Self::padded(l) else { return std::ptr::null_mut() };
+    let p = System.alloc_zeroed(pl);
+    if !p.is_null() {
+      std::ptr::write_bytes(p.add(l.size()), GUARD_BYTE, GUARD);
+    }
+    p
   }
   unsafe fn dealloc(&self, p: *mut u8, l: Layout) {
-    std::ptr::write_bytes(p, 0xDD, l.size());
-    System.dealloc(p, l)
+    let guard = std::slice::from_raw_parts(p.add(l.size()), GUARD);
+    if guard.iter().any(|b| *b != GUARD_BYTE) {
+      vcheck::heapcheck::report(l.size());
+    }
+    std::ptr::write_bytes(p, 0xDD, l.size() + GUARD);
+    System.dealloc(p, Self::padded(l).unwrap_unchecked())
   }
   unsafe fn realloc(&self, p: *mut u8, l: Layout, new_size: usize) -> *mut u8 {
     let nl = Layout::from_size_align_unchecked(new_size, l.align());
-    let q = System.alloc(nl);
+    let q = self.alloc(nl);
     if !q.is_null() {
       std::ptr::copy_nonoverlapping(p, q, l.size().min(new_size));
       self.dealloc(p, l);
